@@ -137,8 +137,9 @@ func (s *Stub) ServeHTTP(rw http.ResponseWriter, r *http.Request) {
 	w := s.W
 	body, _ := io.ReadAll(r.Body)
 	w.transit()
+	proxiedID := r.Header.Get("X-Sim-Id") // set by simulated clients only
 	switch {
-	case r.URL.Path == "/healthz":
+	case proxiedID == "" && r.URL.Path == "/healthz":
 		o := s.record(r, "healthz", body)
 		defer func() { o.Done = true }()
 		switch s.Health {
@@ -154,7 +155,7 @@ func (s *Stub) ServeHTTP(rw http.ResponseWriter, r *http.Request) {
 			rw.WriteHeader(200)
 			rw.Write([]byte("ok"))
 		}
-	case r.Method == "POST" && strings.HasSuffix(r.URL.Path, "/tokenreviews"):
+	case proxiedID == "" && r.Method == "POST" && strings.HasSuffix(r.URL.Path, "/tokenreviews"):
 		o := s.record(r, "tokenreview", body)
 		defer func() { o.Done = true }()
 		var tr authenticationv1.TokenReview
@@ -181,7 +182,7 @@ func (s *Stub) ServeHTTP(rw http.ResponseWriter, r *http.Request) {
 			tr.Status.Authenticated = false
 		}
 		writeJSON(rw, 201, &tr)
-	case r.Method == "POST" && strings.HasSuffix(r.URL.Path, "/subjectaccessreviews"):
+	case proxiedID == "" && r.Method == "POST" && strings.HasSuffix(r.URL.Path, "/subjectaccessreviews"):
 		o := s.record(r, "sar", body)
 		defer func() { o.Done = true }()
 		var sar authorizationv1.SubjectAccessReview
